@@ -25,7 +25,8 @@ Definition run (defs : list (name * N)) (ws : list name) (sites : list (list (na
    map (fun s => enc (bind (gnu_resolve t ws) (of_list (fst s)) (snd s))) sites).
 """
 
-BASES = ["a", "b", "c"]
+# names that contain one another (afn, rafn, xrafn), given in either order on the command line
+BASES = ["a", "ra", "xra"]
 
 
 def nm(kind, b):
@@ -43,7 +44,9 @@ def gen_program(rng, odd):
     place = {}            # object name -> 'obj' | 'arch' | 'so'
     wraps = []
     sites = []
-    for bi, b in enumerate(BASES[:rng.randrange(1, 4)]):
+    chosen = BASES[:rng.randrange(1, 4)]
+    rng.shuffle(chosen)
+    for bi, b in enumerate(chosen):
         wrapped = rng.random() < 0.8
         if wrapped:
             wraps.append(b)
